@@ -27,6 +27,29 @@ STRUCT_FIELDS = {
 }
 
 
+def check_emitter_reads_used_set(P, rule):
+    """who may read TypeCollector.known_structs (the full discovered set): nobody on the emission side.  Declarations are looked up in the map
+    that was filtered (unused and mapped names removed); shared by C07-D6 and C18-D6"""
+    gens = [t for t in P.trait_impls.get(GEN_MODELS, []) if t in P.fns]
+    n = 0
+    for fid in sorted(P.reachable(gens)):
+        f = P.fns[fid]
+        if not fid.startswith(("tauri_typegen::generators", "<tauri_typegen::generators")):
+            continue
+        for c in f.calls:
+            if not c.args or c.bb not in f.reach_blocks:
+                continue
+            sp = short_path(c.path)
+            if not sp.startswith("HashMap::") or sp in ("HashMap::new", "HashMap::insert", "HashMap::clone", "HashMap::clear"):
+                continue
+            t = f.describe_origin(f.origin(c.args[0]), short=False, deep=3)
+            if "known_structs" in t:
+                n += 1
+                rule.bad(V(rule.id, fid, "emitter-reads-discovered-set:%s" % sp, "%s reads TypeCollector.known_structs (every discovered struct) via %s: names that were filtered out of the declared set (unused, mapped) are found again and declared" % (short_path(fid), sp), c.file, c.line))
+    if n == 0:
+        rule.ok("no emission-side function reads the collector's full discovered-struct map")
+
+
 def check_serde_filter(S, P, r5):
     """which items count as serde types; shared by C07-D5 and C02-D4"""
     fn = S.fn("StructParser", "should_include")
@@ -360,6 +383,7 @@ def check(ctx):
             r6.ok("Result<T, E> keeps only the success type")
         else:
             r6.bad(V(r6.id, "TypeResolver::parse_type_structure", "result-arm", "the Result arm does not use the success type only"))
+    check_emitter_reads_used_set(P, r6)
     r3.require_floor(3, "insertion/closure facts")
     r6.require_floor(4, "minimality facts")
     rules += [r3, r6]
